@@ -436,7 +436,7 @@ func (this *BlockDecompressor) Decompress() (int, uint64) {
 			}
 
 			if len(oName) == 0 {
-				oName = tmpName
+				oName = fileOutputName(tmpName)
 			} else if inputIsDir == true && specialOutput == false {
 				oName = formattedOutName + relativeToInputDir(formattedInName, tmpName)
 			}
@@ -474,7 +474,7 @@ func (this *BlockDecompressor) Decompress() (int, uint64) {
 			}
 
 			if len(oNames[i]) == 0 {
-				oNames[i] = tmpName
+				oNames[i] = fileOutputName(tmpName)
 			} else if inputIsDir == true && specialOutput == false {
 				oNames[i] = formattedOutName + relativeToInputDir(formattedInName, tmpName)
 			}
@@ -807,4 +807,15 @@ func (this *fileDecompressTask) call() (int, uint64, error) {
 	}
 
 	return 0, uint64(decoded), err
+}
+
+// fileOutputName returns the name of an output file derived from an input
+// file name, spelled as an explicit path when it could be mistaken for one
+// of the special outputs (a file none.knz or stdout.knz decompressed in place).
+func fileOutputName(name string) string {
+	if strings.EqualFold(name, _DECOMP_NONE) || strings.EqualFold(name, _DECOMP_STDOUT) {
+		return "." + string(os.PathSeparator) + name
+	}
+
+	return name
 }
